@@ -23,9 +23,130 @@ func seq(outs []string) []*State {
 // transaction is validated; a transaction whose validation failed leaves no trace in any named
 // target's stored configuration and is reported FAILED; a committed transaction is committed on
 // every target it names.
+// changedPaths returns the hex paths transaction i changes on target t (change transactions only).
+func changedPaths(c fw.Case, i, t int) []string {
+	n := 0
+	for _, ln := range c.Script {
+		f := strings.Fields(ln)
+		if len(f) == 0 {
+			continue
+		}
+		switch f[0] {
+		case "v2.reset":
+			n = 0
+		case "v2.rollback":
+			n++
+		case "v2.set":
+			n++
+			if n != i {
+				continue
+			}
+			for _, ch := range f[3:] {
+				tt, vals, _ := strings.Cut(ch, "/")
+				if atoi(tt) != t {
+					continue
+				}
+				var out []string
+				for _, tok := range strings.Split(vals, ",") {
+					p, _, _ := strings.Cut(tok, "=")
+					out = append(out, p)
+				}
+				return out
+			}
+		}
+	}
+	return nil
+}
+
+// laterDeleteCovers: a transaction after i deletes the path or one of its ancestors on target t.
+func laterDeleteCovers(c fw.Case, i, t int, hexPath string) bool {
+	b, _ := hex.DecodeString(hexPath)
+	path := string(b)
+	n := 0
+	for _, ln := range c.Script {
+		f := strings.Fields(ln)
+		if len(f) == 0 {
+			continue
+		}
+		switch f[0] {
+		case "v2.reset":
+			n = 0
+		case "v2.rollback":
+			n++
+		case "v2.set":
+			n++
+			if n <= i {
+				continue
+			}
+			for _, ch := range f[3:] {
+				tt, vals, _ := strings.Cut(ch, "/")
+				if atoi(tt) != t {
+					continue
+				}
+				for _, tok := range strings.Split(vals, ",") {
+					hp, rest, _ := strings.Cut(tok, "=")
+					if !strings.Contains(rest, ":d:") {
+						continue
+					}
+					d, _ := hex.DecodeString(hp)
+					if elemPrefix(path, string(d)) {
+						return true
+					}
+				}
+			}
+		}
+	}
+	return false
+}
+
+// requestTargets returns, per transaction index, the targets its request names (rollbacks: the
+// targets of the transaction rolled back).
+func requestTargets(c fw.Case) map[int][]int {
+	res := map[int][]int{}
+	n := 0
+	for _, ln := range c.Script {
+		f := strings.Fields(ln)
+		if len(f) == 0 {
+			continue
+		}
+		switch f[0] {
+		case "v2.reset":
+			res, n = map[int][]int{}, 0
+		case "v2.set":
+			n++
+			for _, ch := range f[3:] {
+				t, _, _ := strings.Cut(ch, "/")
+				res[n] = append(res[n], atoi(t))
+			}
+		case "v2.rollback":
+			n++
+			res[n] = append([]int{}, res[atoi(f[1])]...)
+		}
+	}
+	return res
+}
+
 func monitorC01(c fw.Case, outs []string) []string {
 	var fails []string
 	sts := seq(outs)
+	want := requestTargets(c)
+	for _, st := range sts {
+		for i, tx := range st.Tx {
+			if !tx.HasProps || tx.Init == "f" {
+				continue
+			}
+			have := map[int]bool{}
+			for _, pid := range tx.Props {
+				t, _, _ := strings.Cut(pid, "-")
+				have[atoi(t)] = true
+			}
+			for _, t := range want[i] {
+				if !have[t] {
+					fails = append(fails, fmt.Sprintf("targets: transaction %d names target %d but its proposal list %v does not: it can commit without that target", i, t, tx.Props))
+				}
+			}
+		}
+	}
 	for k := 1; k < len(sts); k++ {
 		a, b := sts[k-1], sts[k]
 		for t, cb := range b.Cfg {
@@ -76,8 +197,20 @@ func monitorC01(c fw.Case, outs []string) []string {
 			}
 			if tx.Commit == "d" {
 				for _, pid := range tx.Props {
-					if p := f.Prop[pid]; p == nil || p.Commit != "d" {
+					p := f.Prop[pid]
+					if p == nil || p.Commit != "d" {
 						fails = append(fails, fmt.Sprintf("all: transaction %d is committed but proposal %s is not", i, pid))
+						continue
+					}
+					// the change must really be in the target's stored configuration: every path of the
+					// request carries this or a later transaction's index there
+					if cfg := f.Cfg[p.Target]; cfg != nil && CleanHistory(c) {
+						for _, path := range changedPaths(c, i, p.Target) {
+							pv, ok := cfg.View[path]
+							if (!ok && !laterDeleteCovers(c, i, p.Target, path)) || (ok && pv.Index < i) {
+								fails = append(fails, fmt.Sprintf("all: transaction %d is committed but target %d does not store its change of %s", i, p.Target, path))
+							}
+						}
 					}
 				}
 			}
